@@ -855,11 +855,11 @@ struct World
             for (size_t i = 0; i < cs.getDeviceStatusCount(); ++i)
             {
                 const DeviceStatus& d = cs.getDeviceStatus(i);
-                out << "SD " << d.getInterfaceStatusCount() << " " << obsPacket(d.getPacket()) << "\n";
+                out << "SD " << d.getInterfaceStatusCount() << " " << obsPacket(d.getPacket()).substr(2) << "\n";
                 for (size_t j = 0; j < d.getInterfaceStatusCount(); ++j)
-                    out << "SI " << d.getInterfaceStatus(j).getInterfaceId() << " " << obsPacket(d.getInterfaceStatus(j).getPacket()) << "\n";
+                    out << "SI " << d.getInterfaceStatus(j).getInterfaceId() << " " << obsPacket(d.getInterfaceStatus(j).getPacket()).substr(2) << "\n";
                 out << "SY";
-                for (size_t q = 1; q < l.n.size(); ++q)
+                for (size_t q = 0; q < l.n.size(); ++q)
                     out << " " << d.getIndexByInterfaceId(static_cast<uint32_t>(l.n[q]));
                 out << "\n";
             }
